@@ -352,8 +352,8 @@ fn start_arity(log: &[u64], arities: &[usize]) -> Option<usize> {
     })
 }
 
-/// returns the arity of the op the loop started on (statistics; `None` for an empty string)
-fn loop_case(q: &mut Q, h: &Handle, calls_tok: &str) -> Option<usize> {
+/// returns (arity of the op the loop started on, the string mixes arities) (statistics; `None` for an empty string)
+fn loop_case(q: &mut Q, h: &Handle, calls_tok: &str) -> Option<(usize, bool)> {
     let before_state = q.state_ref().to_vec();
     let before_slots = show_slots(q.get_manager_ref());
     let sk = skeleton(q);
@@ -384,11 +384,11 @@ fn loop_case(q: &mut Q, h: &Handle, calls_tok: &str) -> Option<usize> {
                 stat("loop_crossed_boundary_state_changed", 1);
             }
             let arities: Vec<usize> = sk.1.iter().map(|o| o.2.len()).collect();
-            let sa = start_arity(&log, &arities);
-            if let Some(k) = sa {
+            // mixed = the string mixes arities (the case where leg-uniform and op-uniform starts differ, F22)
+            let sa = start_arity(&log, &arities).map(|k| (k, arities.iter().any(|a| *a != k)));
+            if let Some((k, mixed)) = sa {
                 stat(&format!("loop_start_arity_{}", k), 1);
-                if arities.iter().any(|a| *a != k) {
-                    // the string mixes arities (the case where leg-uniform and op-uniform starts differ, F22)
+                if mixed {
                     stat(&format!("loop_start_arity_{}_in_mixed_string", k), 1);
                 }
             }
@@ -513,8 +513,8 @@ fn run_traj(g: &mut SplitMix64, thorough: bool) {
             let sa = loop_case(q, &h, &calls_tok);
             if witness {
                 stat("traj_f22_witness_loops", 1);
-                if let Some(a) = sa {
-                    stat(&format!("traj_f22_witness_fam{}_start_arity_{}", fam, a), 1);
+                if let Some((a, mixed)) = sa {
+                    stat(&format!("traj_f22_witness_fam{}_start_arity_{}{}", fam, a, if mixed { "_in_mixed_string" } else { "" }), 1);
                 }
             }
         };
